@@ -18,6 +18,7 @@
 import ClairModel.Proofs.Dpkg
 import ClairModel.Proofs.Apk
 import ClairModel.Proofs.OsRelease
+import ClairModel.Proofs.PyMeta
 
 namespace ClairModel.Props.C02
 open ClairModel ClairModel.Bytes ClairModel.Rfc822 ClairModel.Dpkg
@@ -337,5 +338,49 @@ example : (parse (joinNl [asc "PRETTY_NAME=\"Debian GNU/Linux 11 (bullseye)\"", 
   decide
 
 end osrelease
+
+/-! ## python METADATA / PKG-INFO -/
+
+section python
+open ClairModel.PyMeta
+
+/-- From a written metadata file (legal header fields in any order, an empty
+    line, then any body whatsoever) `Scan` reads exactly the header's `Name`
+    (lower-cased) and `Version`; nothing in the body or in folded description
+    lines can take their place. The version text then goes through
+    `pep440.Parse` (C12's model). -/
+theorem python_reads_written_metadata (fs : List Field) (hw : ∀ f ∈ fs, f.WF) (body : List Bytes) (tail : Bytes)
+    (hb : ∀ l ∈ body, 10 ∉ l ∧ 13 ∉ l) (ht : splitLines tail = []) :
+    nameVersion (joinLines (metaLines fs body) ++ tail) =
+      (toLower ((hdrOf fs).get PyMeta.kName), (hdrOf fs).get PyMeta.kVersion) := by
+  have hclean : ∀ l ∈ metaLines fs body, 10 ∉ l ∧ 13 ∉ l := by
+    intro l hl
+    simp only [metaLines, List.mem_append, List.mem_cons] at hl
+    rcases hl with hl | rfl | hl
+    · exact fieldsLines_clean fs hw l hl
+    · simp
+    · exact hb l hl
+  obtain ⟨rest, hr⟩ := firstEvent_metaLines fs hw body
+  simp only [nameVersion, firstHeader, calls, splitLines_joinLines _ tail hclean, ht, List.append_nil, hr]
+
+/-- A wheel's `<stem>.dist-info/METADATA` below any directory is picked as a
+    package and its package database is `python:<that directory>`. -/
+theorem python_wheel_path (dir stem : Bytes) (hs : 47 ∉ stem) :
+    classify (wheelPath dir stem) = some .wheel ∧
+    packageDB (wheelPath dir stem) = asc "python:" ++ dir :=
+  classify_wheel dir stem hs
+
+/-- Sanity: the other layouts and the exclusions. -/
+example :
+    classify (asc "usr/lib/python3.9/site-packages/foo-1.0.egg-info/PKG-INFO") = some .eggInfo ∧
+    classify (asc "site-packages/foo-1.0.egg-info") = some .eggInfo ∧
+    classify (asc "a/foo-1.0-py3.9.egg/EGG-INFO/PKG-INFO") = some .egg ∧
+    classify (asc "a/.wh.foo-1.0.egg-info") = none ∧
+    classify (asc "a/foo-1.0.dist-info/RECORD") = none ∧
+    packageDB (asc "foo-1.0.egg-info") = asc "python:." ∧
+    packageDB (asc "a/foo-1.0-py3.9.egg/EGG-INFO/PKG-INFO") = asc "python:a/foo-1.0-py3.9.egg" := by
+  decide
+
+end python
 
 end ClairModel.Props.C02
